@@ -31,9 +31,11 @@ type Op struct {
 	Data int    `json:"data,omitempty"`
 }
 
+type selfPtr *selfPtr
+
 // IsExec reports whether the op executes a template.
 func (o Op) IsExec() bool {
-	return o.Kind == "exec" || o.Kind == "exect" || o.Kind == "exechtml" || o.Kind == "execthtml" || o.Kind == "execbyname"
+	return o.Kind == "exec" || o.Kind == "exect" || o.Kind == "exechtml" || o.Kind == "execthtml" || o.Kind == "execbyname" || o.Kind == "execcyc"
 }
 
 // IsParse reports whether the op (re)defines templates.
@@ -228,6 +230,13 @@ func (e *Exec) Do(op Op) (res Result) {
 		case "exec":
 			var w countWriter
 			setErr(h.Execute(&w, data))
+			res.Out = w.b.String()
+		case "execcyc":
+			// a value that points to itself (type P *P)
+			var p selfPtr
+			p = selfPtr(&p)
+			var w countWriter
+			setErr(h.Execute(&w, p))
 			res.Out = w.b.String()
 		case "execbyname":
 			// reference only: the handle's own template, reached through its name
